@@ -931,6 +931,105 @@ def bin2sna_tool(seed, n):
     return n, bad
 
 
+SNAP_ATTRS = ('a', 'f', 'bc', 'de', 'hl', 'a2', 'f2', 'bc2', 'de2', 'hl2', 'ix', 'iy', 'sp', 'i', 'r', 'pc', 'border', 'iff1', 'im', 'out7ffd', 'outfffd')
+REG_OPTS = {'a': ('a', 255), 'f': ('f', 255), 'bc': ('bc', 65535), 'de': ('de', 65535), 'hl': ('hl', 65535), 'ix': ('ix', 65535), 'iy': ('iy', 65535),
+            'sp': ('sp', 65535), 'pc': ('pc', 65535), 'i': ('i', 255), 'r': ('r', 255), '^a': ('a2', 255), '^f': ('f2', 255), '^bc': ('bc2', 65535), '^de': ('de2', 65535), '^hl': ('hl2', 65535)}
+
+
+def snapmod_tool(seed, n):
+    """snapmod.main on generated snapshots and options (--reg, --state, --poke, --move, --patch; z80 and szx): exactly the
+    registers and state attributes named change, to the values given; RAM is the input RAM after the patches, then the
+    moves, then the pokes (the order snapmod applies them), and nothing else changes."""
+    from skoolkit import snapmod
+    import skoolkit.snapshot as S
+    rnd = random.Random(seed * 17 + 3)
+    tmp = tempfile.mkdtemp(prefix='c09sm_')
+    bad = []
+    try:
+        for t in range(n):
+            m128 = rnd.random() < 0.5
+            ram = [rnd.randrange(256) for _ in range(0x20000 if m128 else 49152)]
+            ext1 = rnd.choice(('z80', 'szx'))
+            ext2 = ext1         # (snapmod keeps the format: 'Mismatched input and output snapshot types' otherwise)
+            src, out = os.path.join(tmp, 'a.' + ext1), os.path.join(tmp, 'b.' + ext2)
+            page = rnd.randrange(8) if m128 else None
+            regs0 = ['%s=%d' % (k, rnd.randrange(v[1] + 1)) for k, v in REG_OPTS.items() if not k.startswith('^')]
+            state0 = ['border=%d' % rnd.randrange(8), 'im=%d' % rnd.randrange(3), 'iff=%d' % rnd.randrange(2)] + (['7ffd=%d' % page] if m128 else [])
+            S.write_snapshot(src, [ram[b * 0x4000:(b + 1) * 0x4000] for b in range(8)] if m128 else ram, regs0, state0, '128K' if m128 else '48K')
+            before = S.Snapshot.get(src)
+            exp = {a: getattr(before, a) for a in SNAP_ATTRS}
+            if m128:
+                banks = [list(ram[b * 0x4000:(b + 1) * 0x4000]) for b in range(8)]
+                slot = {1: 5, 2: 2, 3: page}
+            else:
+                banks = [list(ram[0:0x4000]), list(ram[0x4000:0x8000]), list(ram[0x8000:0xC000])]
+                slot = {1: 0, 2: 1, 3: 2}
+            if m128 and page in (5, 2):
+                continue        # aliasing of bank 5 / 2 at 0xC000 is left to the poke / move contracts
+            args = []
+            # patch, then move, then poke
+            if rnd.random() < 0.4:
+                a = rnd.randrange(16384, 65536 - 40)
+                pd = [rnd.randrange(256) for _ in range(rnd.randrange(1, 40))]
+                pf = os.path.join(tmp, 'p.bin')
+                with open(pf, 'wb') as f:
+                    f.write(bytes(pd))
+                args += ['--patch', '%d,%s' % (a, pf)]
+                for i, b in enumerate(pd):
+                    banks[slot[(a + i) >> 14]][(a + i) & 0x3FFF] = b
+            if rnd.random() < 0.4:
+                sa, size, da = rnd.randrange(16384, 65536 - 40), rnd.randrange(1, 40), rnd.randrange(16384, 65536 - 40)
+                if rnd.random() < 0.2:
+                    sa = 65536 - size       # a block that ends at the top of memory
+                args += ['-m', '%d,%d,%d' % (sa, size, da)]
+                blk = [banks[slot[(sa + i) >> 14]][(sa + i) & 0x3FFF] for i in range(size)]
+                for i, b in enumerate(blk):
+                    banks[slot[(da + i) >> 14]][(da + i) & 0x3FFF] = b
+            if rnd.random() < 0.5:
+                a, v = rnd.randrange(16384, 65536), rnd.randrange(256)
+                args += ['-p', '%d,%d' % (a, v)]
+                banks[slot[a >> 14]][a & 0x3FFF] = v
+            for k in rnd.sample(sorted(REG_OPTS), rnd.randrange(0, 4)):
+                attr, mx = REG_OPTS[k]
+                v = rnd.randrange(mx + 1)
+                args += ['-r', '%s=%d' % (k, v)]
+                exp[attr] = v
+            if rnd.random() < 0.4:
+                v = rnd.randrange(8)
+                args += ['-s', 'border=%d' % v]
+                exp['border'] = v
+            if rnd.random() < 0.3:
+                v = rnd.randrange(3)
+                args += ['-s', 'im=%d' % v]
+                exp['im'] = v
+            desc = ' '.join(x if not x.startswith(tmp) else os.path.basename(x) for x in args) + ' (%s %s -> %s)' % ('128K' if m128 else '48K', ext1, ext2)
+            try:
+                with contextlib.redirect_stdout(io.StringIO()), contextlib.redirect_stderr(io.StringIO()):
+                    snapmod.main(args + [src, out])
+                after = S.Snapshot.get(out)
+            except (Exception, SystemExit) as ex:
+                bad.append((desc, 'exception %r' % (ex,)))
+                continue
+            why = None
+            for a in SNAP_ATTRS:
+                if getattr(after, a) != exp[a]:
+                    why = '%s is %s, expected %s' % (a, getattr(after, a), exp[a])
+                    break
+            if why is None:
+                got = list(after.ram(-1)) if m128 else list(after.ram())
+                flat = [b for bank in banks for b in bank]
+                if got != flat:
+                    o = next(i for i in range(len(flat)) if i >= len(got) or got[i] != flat[i])
+                    why = 'RAM differs at %s %d (got %s, expected %d; %d bytes)' % ('bank %d offset' % (o >> 14) if m128 else 'address', (o & 0x3FFF) if m128 else o + 16384, got[o] if o < len(got) else None, flat[o], len(got))
+            if why:
+                bad.append((desc, why))
+                if len(bad) > 3:
+                    break
+    finally:
+        shutil.rmtree(tmp, ignore_errors=True)
+    return n, bad
+
+
 def run(tier):
     rep = common.Report('C09', tier, 'other', './check C09 --tier %s' % tier)
     rep.trust('pyvc, z3/cvc5 for the codec VCs; CPython for the bounded parts; zlib assumed correct')
@@ -980,6 +1079,14 @@ def run(tier):
                         'bound': '%d generated inputs and option sets (48K and --page/--bank, full-size and short bank files, z80/szx)' % evb, 'evaluations': evb})
     for b in badb[:2]:
         rep.violation('C09/bin2sna/%s' % b[1].split(' differs')[0].split(' is ')[0][:30], 'bin2sna %s: %s' % b, {'case': {'bin2sna': b[0], 'seed': common.seed()}, 'observed': b[1]})
+    try:
+        evs, bads = snapmod_tool(common.seed(), 80 if quick else 2000)
+    except Exception as ex:
+        evs, bads = 1, [('snapmod', 'exception %r' % (ex,))]
+    rep.bounded.append({'function': 'skoolkit.snapmod.main (--reg, --state, --poke, --move, --patch)', 'contract': 'exactly the named registers / state attributes change; RAM == input after patches, moves, pokes; nothing else',
+                        'bound': '%d generated snapshots and option sets (48K/128K, z80/szx)' % evs, 'evaluations': evs})
+    for b in bads[:2]:
+        rep.violation('C09/snapmod/%s' % b[1].split(' is ')[0].split(' differs')[0][:30], 'snapmod %s: %s' % b, {'case': {'snapmod': b[0], 'seed': common.seed()}, 'observed': b[1]})
     rep.extra['explanation'] = ('P: writer codec composed with the reader statements (taken from the real _read methods) proved to be the identity modulo the field width for all values; '
                                'B: RLE bounded-exhaustive, files, independent readers, poke/move')
     return rep.finish()
@@ -991,6 +1098,13 @@ def replay(path):
         doc = json.load(f)
     case = doc.get('case')
     print('replaying', doc.get('key'), case)
+    if isinstance(case, dict) and 'snapmod' in case:
+        n_, bad = snapmod_tool(case.get('seed', common.seed()), 2000)
+        print(bad[:2])
+        if bad:
+            print('VIOLATION property=C09 replay=%s' % path)
+            return 1
+        return 0
     if isinstance(case, dict) and 'bin2sna' in case:
         n_, bad = bin2sna_tool(case.get('seed', common.seed()), 1500)
         print(bad[:2])
